@@ -98,7 +98,11 @@ func runC07(c *Ctx) {
 	if serve != nil {
 		R.Analysed(fname(serve))
 		n := 0
-		for _, b := range serve.Blocks {
+		var regionBlocks []*ssa.BasicBlock
+		for fn := range c.serveRegion() {
+			regionBlocks = append(regionBlocks, fn.Blocks...)
+		}
+		for _, b := range regionBlocks {
 			for _, in := range b.Instrs {
 				st, ok := in.(*ssa.Store)
 				if !ok {
@@ -232,36 +236,17 @@ func runC07(c *Ctx) {
 			continue
 		}
 		R.Analysed(fname(fn))
-		n := 0
-		for _, b := range fn.Blocks {
-			for _, in := range b.Instrs {
-				if lk, ok := in.(*ssa.Lookup); ok {
-					if _, p := pathOf(lk.X); p == "."+cf.mapField {
-						n++
-						R.Check(lk.Index == ssa.Value(fn.Params[2]), "C07.R3", cf.typ+"."+cf.method+":lookup-by-name", c.at(lk), cf.method+" resolves exactly the name given", "lookup key is the name parameter", "the lookup key is not the name parameter")
-					}
-				}
-			}
+		key, _, site, ok := c.cacheLookup(fn, cf.mapField, 0)
+		if !ok {
+			R.Fail("C07.R3", cf.typ+"."+cf.method+":lookup", c.atFn(fn), cf.method+" looks the name up in the "+cf.mapField+" map", "no lookup in the "+cf.mapField+" map found (directly or through a helper method of the cache)")
+			continue
 		}
-		R.Floor("C07.R3", "lookups in "+cf.typ+"."+cf.method, n, 1)
+		R.Check(key == ssa.Value(fn.Params[2]), "C07.R3", cf.typ+"."+cf.method+":lookup-by-name", c.at(site), cf.method+" resolves exactly the name given", "lookup key is the name parameter", "the lookup key is not the name parameter")
 	}
 
 	// ---------- R4: portal provenance in Execute and Describe
 	if ex := c.P.Method("wire", "DefaultPortalCache", "Execute"); ex != nil {
-		var portal ssa.Value
-		for _, b := range ex.Blocks {
-			for _, in := range b.Instrs {
-				if lk, ok := in.(*ssa.Lookup); ok && lk.CommaOk {
-					for _, r := range core.Referrers(lk) {
-						if e, ok := r.(*ssa.Extract); ok && e.Index == 0 {
-							portal = e
-						}
-					}
-				} else if ok && !lk.CommaOk {
-					portal = lk
-				}
-			}
-		}
+		_, portal, _, _ := c.cacheLookup(ex, "portals", 0)
 		n := 0
 		for _, ci := range core.Calls(ex) {
 			if callbackName(ci) != "stmt" {
@@ -338,8 +323,7 @@ func runC07(c *Ctx) {
 				a := ci.Common().Args
 				okStmt := got != nil && a[2] == resultOf(got, 0)
 				R.Check(a[1] == portalName && okStmt, "C07.R5", "Bind:portal-name-and-statement", c.at(ci), "the portal is created under the message's first string and attached to the statement just resolved", "Bind(name = 1st string, stmt = Get result)", "Portals.Bind does not receive the message's portal name and the resolved statement")
-				rp := c.P.Method("wire", "Session", "readParameters")
-				rc := c.P.Method("wire", "Session", "readColumnTypes")
+				rp, rc := c.bindDecoders()
 				okP, okF := false, false
 				if ex, ok := a[3].(*ssa.Extract); ok {
 					if call, ok := ex.Tuple.(*ssa.Call); ok && core.StaticCallee(call) == rp && ex.Index == 0 {
@@ -405,4 +389,69 @@ func runC07(c *Ctx) {
 		}
 	}
 	R.Check(removal, "C07.R6", "Close:no-removal", "-", "Close makes the statement / portal name unresolvable (a removal from the cache map is reachable from the Close arm)", "a delete on the cache maps exists", "no delete() on the statement or portal map exists anywhere in the library and the Close arm reads no name: Close is acknowledged but removes nothing")
+}
+
+// cacheLookup finds the map lookup of a cache method: directly in fn, or in a helper method of the same
+// receiver whose key is its own parameter. It returns the key and the looked-up value in fn's terms.
+func (c *Ctx) cacheLookup(fn *ssa.Function, mapField string, depth int) (key, val ssa.Value, site ssa.Instruction, ok bool) {
+	for _, b := range fn.Blocks {
+		for _, in := range b.Instrs {
+			lk, isLk := in.(*ssa.Lookup)
+			if !isLk {
+				continue
+			}
+			if _, p := pathOf(lk.X); p != "."+mapField {
+				continue
+			}
+			v := ssa.Value(lk)
+			if lk.CommaOk {
+				for _, r := range core.Referrers(lk) {
+					if e, isE := r.(*ssa.Extract); isE && e.Index == 0 {
+						v = e
+					}
+				}
+			}
+			return lk.Index, v, lk, true
+		}
+	}
+	if depth > 1 {
+		return nil, nil, nil, false
+	}
+	for _, ci := range core.Calls(fn) {
+		call, isCall := ci.(*ssa.Call)
+		if !isCall {
+			continue
+		}
+		h := core.StaticCallee(call)
+		if h == nil || h == fn || h.Signature.Recv() == nil || fn.Signature.Recv() == nil || !types.Identical(h.Signature.Recv().Type(), fn.Signature.Recv().Type()) {
+			continue
+		}
+		hk, hv, _, hok := c.cacheLookup(h, mapField, depth+1)
+		if !hok {
+			continue
+		}
+		// the helper's key must be its parameter, and it must return the looked-up value
+		pi := -1
+		for i, p := range h.Params {
+			if hk == ssa.Value(p) {
+				pi = i
+			}
+		}
+		if pi < 0 || call.Call.Args[0] != ssa.Value(fn.Params[0]) {
+			continue
+		}
+		ri := -1
+		for _, r := range returns(h) {
+			for i, res := range r.Results {
+				if res == hv {
+					ri = i
+				}
+			}
+		}
+		if ri < 0 {
+			continue
+		}
+		return call.Call.Args[pi], resultOf(call, ri), call, true
+	}
+	return nil, nil, nil, false
 }
